@@ -155,6 +155,51 @@ func thoroughImpl(c *Ctx, prop *Property, findings []Finding, repo string, quick
 	}
 	cov["seeded_replay"] = map[string]any{"variants_applicable": applicable, "variants_fired": fired, "details": replay,
 		"note": "evidence only: a seeded patch that no longer applies to an edited tree says nothing about the property, so the replay never changes the exit code"}
+	// (iv) behaviour-preserving edits (refactorings/): a rotating dozen per property must stay silent; evidence only,
+	// an alarm here is a defect of the checker, not of the tree under test
+	{
+		var idx int
+		fmt.Sscanf(prop.ID, "C%d", &idx)
+		pick := (idx+3)%4 + 1
+		diffs, _ := filepath.Glob(fmt.Sprintf("/verif/refactorings/R*-r%d.diff", pick))
+		sort.Strings(diffs)
+		applicable, silent := 0, 0
+		var noisy []string
+		for _, df := range diffs {
+			tmp, err := os.MkdirTemp("", "asv-refac-")
+			if err != nil {
+				continue
+			}
+			func() {
+				defer os.RemoveAll(tmp)
+				if _, err := exec.Command("rsync", "-a", "--exclude", ".git", repo+"/", tmp+"/").CombinedOutput(); err != nil {
+					return
+				}
+				cmd := exec.Command("patch", "-p1", "-s", "--no-backup-if-mismatch", "-i", df)
+				cmd.Dir = tmp
+				if _, err := cmd.CombinedOutput(); err != nil {
+					return // does not apply to an edited tree: says nothing
+				}
+				p4, err := load.Load(tmp, false, "", "")
+				if err != nil {
+					return
+				}
+				applicable++
+				c4 := NewCtx(p4, "quick")
+				ev, _ := os.MkdirTemp("", "asv-refac-ev-")
+				r4 := RunProperty(c4, prop, findings, 0, ev, nil)
+				os.RemoveAll(ev)
+				if r4.Exit == 0 {
+					silent++
+				} else {
+					noisy = append(noisy, filepath.Base(df))
+				}
+			}()
+		}
+		cov["behaviour_preserving_replay"] = map[string]any{"variants_applicable": applicable, "variants_silent": silent, "alarmed": noisy,
+			"note": "evidence only: an alarm on a behaviour-preserving edit is a shape dependency of a rule (DESIGN.md 12.6), it never changes the exit code"}
+		lines = append(lines, fmt.Sprintf("%s thorough: behaviour-preserving replay %d/%d silent", prop.ID, silent, applicable))
+	}
 	cov["thorough_wall_s"] = time.Since(t0).Seconds()
 	lines = append(lines, fmt.Sprintf("%s thorough: platforms %d, VTA cross-check %d/%d repo functions (missing %d), seeded replay %d/%d fired", prop.ID, len(platforms), nAST, nVTA, len(diff), fired, applicable))
 	return lines, exit
